@@ -112,3 +112,19 @@ Example C18_ex_indent :
   indent_run [62] [32] [91; 49; 44; 123; 125; 93; 32] =
   COk [91; 10; 62; 32; 49; 44; 10; 62; 32; 123; 125; 10; 62; 93; 32].
 Proof. vm_compute. reflexivity. Qed.
+
+(* ---- the number recogniser, translated ---- *)
+From GJ Require Import Base.ScanProg Gen.ScanProgs Proofs.ScanProgP.
+(* validNumber of internal/encoder/compact.go and of internal/decoder/number.go, translated statement by statement
+   into the scanner language of Base/ScanProg.v on every run, are the program the proof is about *)
+Theorem C18_number_recogniser_source : enc_validNumber_prog = vn_prog /\ dec_validNumber_prog = vn_prog.
+Proof. split; reflexivity. Qed.
+(* and that program accepts, for EVERY byte string, exactly the RFC 8259 numbers: no read beyond the slice (Stuck),
+   no loop without progress (OutOfFuel) *)
+Theorem C18_number_recogniser_translated_is_rfc : forall s,
+  run_scanner enc_validNumber_prog s = Returned (json_number s) /\ run_scanner dec_validNumber_prog s = Returned (json_number s).
+Proof.
+  intro s. rewrite (proj1 C18_number_recogniser_source), (proj2 C18_number_recogniser_source).
+  rewrite vn_prog_is_valid_number, valid_number_spec. split; reflexivity.
+Qed.
+Print Assumptions C18_number_recogniser_translated_is_rfc.
